@@ -90,7 +90,7 @@ class _Driver:
 
 class ItpSub(Sub):
     name = "itp"
-    budget = {"quick": 16000, "thorough": 200000}
+    budget = {"quick": 10000, "thorough": 150000}
     rule = ("header-queue histories mixing ITP headers over all 27 payload bits (random, walking ones, field "
             "boundaries, back to back), headers of other types held 1-4 cycles, and invalid cycles carrying stale "
             "ITP-typed data; every ITP taken must be followed by update_received with bus_interval_counter == "
